@@ -401,6 +401,7 @@ theorem holds_caseBlind (sc : Scope) (hb : sc.caseBlind) (u v h : Bytes) (a : So
     simp only [Scope.caseBlind] at hb
     simp [Scope.holds, hb u v huv]
   | host op s => cases op <;> rfl
+  | hostRe neg m => rfl
   | ip neg net bits => rfl
 
 theorem holds_urlFree (sc : Scope) (hb : sc.urlFree) (u v h : Bytes) (a : SockAddr) :
@@ -410,6 +411,7 @@ theorem holds_urlFree (sc : Scope) (hb : sc.urlFree) (u v h : Bytes) (a : SockAd
   | url op s => exact absurd hb (by simp [Scope.urlFree])
   | urlRe neg m => exact absurd hb (by simp [Scope.urlFree])
   | host op s => cases op <;> rfl
+  | hostRe neg m => rfl
   | ip neg net bits => rfl
 
 theorem setting_congr {α : Type} (sel : Block → Option α) (cfg : List Block) (e e' : Env)
